@@ -26,6 +26,7 @@ import (
 	"github.com/pkg/errors"
 	"github.com/prometheus/prometheus/config"
 	"github.com/prometheus/prometheus/model/labels"
+	"gopkg.in/yaml.v2"
 )
 
 const (
@@ -112,7 +113,16 @@ func (c *ConfigManager) ReloadFromRaw(data []byte) (err error) {
 	// config hash don't include external labels
 	eLb := info.Config.GlobalConfig.ExternalLabels
 	info.Config.GlobalConfig.ExternalLabels = []labels.Label{}
-	hash, err := hashstructure.Hash(info.Config, hashstructure.FormatV2, nil)
+	// regular expressions of relabel rules are kept in unexported fields and are invisible to the structural hash,
+	// secrets are invisible in the marshalled text: hash both
+	text, err := yaml.Marshal(info.Config)
+	if err != nil {
+		return errors.Wrapf(err, "marshal config for hash")
+	}
+	hash, err := hashstructure.Hash(struct {
+		Config *config.Config
+		Text   string
+	}{info.Config, string(text)}, hashstructure.FormatV2, nil)
 	if err != nil {
 		return errors.Wrapf(err, "get config hash")
 	}
